@@ -9,7 +9,7 @@ COQ_CHECK = 'check'
 CORR_VO = 'Corr/C13.vo'
 RULE = ('T2: Percent.quote/unquote, FormURLEncoded/QueryString encode/decode evaluated by the Gallina model (vm_compute) '
 	'and by the implementation on the same inputs: every single octet x every named safe set, random 2-octet and longer strings, '
-	'escape-dense decoder inputs, pair lists over Unicode incl. delimiters for UTF-8 and ISO-8859-1; oracle: round trips on the real code. '
+	'escape-dense decoder inputs, the escape/octet interaction family (for octet XX: %XX, %xx, %25XX, %2525, %%XX, %XX%XX next to the octet 0xXX itself; every safe set, form codec, QueryString, URI.query; quick tier: 32 octet values incl. % + space / & = ; 00 0f 7f 80 ff, thorough: all 256), pair lists over Unicode incl. delimiters for UTF-8 and ISO-8859-1; oracle: round trips on the real code. '
 	'non-trivial = distinct (kind, input) whose output differs from its input or is an error')
 EXHAUSTIVE = {'quick': False, 'thorough': False}
 TRUSTED = ['harness/gen_tables.py t_percent (T1: masks of the Percent.* sets, HEX_MAP, QueryString.INVALID, escape-width probe)',
@@ -22,6 +22,12 @@ D1 = {'k': 'rt_quote', 'safe': 'UNRESERVED', 'd': '01'}
 D1F = {'k': 'rt_form', 'qs': False, 'cs': 'ISO8859-1', 'ps': [['a', '\x020']]}
 D21 = {'k': 'rt_query', 'ps': [['a', '\x1f']]}
 WITNESSES = [('D1-percent-low-octet', D1), ('D1-percent-low-octet', D1F), ('D21-query-c0-controls', D21)]
+
+
+def random_fork(rng):
+	"""an independent stream, so that the cases drawn after this point are the same as before the family was added"""
+	import random
+	return random.Random(0x13C13 ^ hash(rng.getstate()[1][:8]))   # hash of a tuple of ints: independent of PYTHONHASHSEED
 
 
 def _impl():
@@ -73,9 +79,111 @@ def rbytes(rng, lo=0, hi=12):
 	return bytes(rng.choice([rng.randrange(256), rng.randrange(0x20, 0x7f), rng.randrange(0, 0x20)]) for _ in range(n))
 
 
+# octets that every tier puts through the escape/octet interaction family below
+PCT_MUST = [0x25, 0x2b, 0x20, 0x2f, 0x26, 0x3d, 0x3b, 0x00, 0x0f, 0x7f, 0x80, 0xff]
+PCT_TEXT_EXTRA = ['€', '\U0001f600', 'Ā', '\ufeff']
+
+
+def _hexforms(x):
+	"""upper, lower and mixed-case spellings of the two hex digits of x"""
+	out = ['%02X' % x, '%02x' % x]
+	for m in ('%X%x' % (x >> 4, x & 15), '%x%X' % (x >> 4, x & 15)):
+		if m not in out:
+			out.append(m)
+	return out
+
+
+def pct_family(x):
+	"""octet strings in which a literal '%XX' (any case), '%25XX', '%2525', '%%XX', '%XX%XX' meets the octet 0xXX itself:
+	a decoder that is not strictly single-pass, or an encoder that does not escape '%', loses the difference"""
+	ch = bytes([x])
+	U = ('%%%02X' % x).encode()
+	out = []
+	for hx in _hexforms(x):
+		e = b'%' + hx.encode()
+		out += [e + ch, ch + e, ch + e + ch, e + ch + e, b'%25' + e[1:], b'%25' + e[1:] + ch, ch + b'%25' + e[1:], b'%' + e, b'%' + e + ch, ch + b'%' + e,
+			e + e, e + e + ch, ch + e + e, e + U + ch, b'%2525' + e[1:] + ch]
+	out += [b'%2525', b'%2525' + ch, ch + b'%2525', b'%25' + ch, ch + b'%25', b'%25%25' + ch, b'%' + ch, ch + b'%', ch + ch + U, U + ch + ch]
+	seen, res = set(), []
+	for d in out:
+		if d not in seen:
+			seen.add(d)
+			res.append(d)
+	return res
+
+
+def pct_text_family(ch, cs):
+	"""the same family as text for the pair codecs: ch is one character, its octets in charset cs are what gets escaped"""
+	try:
+		bs = ch.encode(cs)
+	except UnicodeEncodeError:
+		return []
+	escs = []
+	for b in bs:
+		for hx in _hexforms(b)[:2]:
+			escs.append('%' + hx)
+	whole = ''.join('%%%02X' % b for b in bs)
+	if whole not in escs:
+		escs += [whole, whole.lower()]
+	out = []
+	for e in escs:
+		out += [e + ch, ch + e, ch + e + ch, '%25' + e[1:], '%25' + e[1:] + ch, '%' + e, '%' + e + ch, e + e, e + e + ch]
+	out += ['%2525', '%2525' + ch, '%25' + ch, ch + '%25', '%' + ch, ch + '%']
+	seen, res = set(), []
+	for t in out:
+		if t not in seen:
+			seen.add(t)
+			res.append(t)
+	return res
+
+
+def _pct_octets(rng, big):
+	if big:
+		return list(range(256))
+	rest = [x for x in range(256) if x not in PCT_MUST]
+	return PCT_MUST + sorted(rng.sample(rest, 20))
+
+
+def gen_pct_cases(rng, big):
+	cases = []
+	octets = _pct_octets(rng, big)
+	safes = SAFE_NAMES + ['DEFAULT', '']
+	for x in octets:
+		fam = pct_family(x)
+		for d in fam:
+			for safe in safes:
+				cases.append({'k': 'rt_quote', 'safe': safe, 'd': d.hex()})
+			# model vs implementation: the encoder under two safe sets, the decoder on the string itself and on its encodings
+			for safe in (SAFE_NAMES[x % 7], 'DEFAULT' if x % 2 else ''):
+				cases.append({'k': 'quote', 'safe': safe, 'd': d.hex()})
+			cases.append({'k': 'unquote', 'd': d.hex()})
+			cases.append({'k': 'unquote', 'd': b''.join(b'%%%02X' % c if c in b'%/ &=;+' or c == x or c >= 0x7f or c < 0x20 else bytes([c]) for c in d).hex()})
+			for qs in (False, True):
+				for cs in ('UTF-8', 'ISO8859-1'):
+					cases.append({'k': 'form_dec', 'qs': qs, 'cs': cs, 'd': (b'a=' + d).hex()})
+			cases.append({'k': 'form_dec', 'qs': x % 2 == 0, 'cs': 'ISO8859-1', 'd': (d + b'=' + d + b'&' + d).hex()})
+	# the pair codecs: FormURLEncoded and QueryString in both charsets, URI.query
+	chars = [chr(x) for x in octets] + PCT_TEXT_EXTRA
+	for ch in chars:
+		for cs in ('UTF-8', 'ISO8859-1'):
+			fam = pct_text_family(ch, cs)
+			for j, t in enumerate(fam):
+				lists = [[['n', t]], [[t, 'v']], [[t, t]]]
+				if j < 6:
+					lists += [[['a', t], [ch, ch]], [[t[:3], t[3:]]] if t[3:] and t[:3] else [[ch, t]]]
+				for ps in lists:
+					for qs in (False, True):
+						cases.append({'k': 'rt_form', 'qs': qs, 'cs': cs, 'ps': ps})
+					cases.append({'k': 'form_enc', 'qs': j % 2 == 0, 'cs': cs, 'ps': ps})
+					if cs == 'UTF-8':
+						cases.append({'k': 'rt_query', 'ps': ps})
+	return cases
+
+
 def gen_cases(rng, tier):
 	cases = []
 	big = tier == 'thorough'
+	cases.extend(gen_pct_cases(random_fork(rng), big))
 	# every single octet under every named safe set (+ default, + empty set, + full set)
 	for safe in SAFE_NAMES + ['DEFAULT', '', bytes(range(256)).hex()]:
 		for c in range(256):
